@@ -65,6 +65,6 @@ META = dict(
          "ascending, contiguous, unprocessed, on the best chain; requests of a round are a prefix of the plan without repeats for every event interleaving incl. arbitrary reorgs; "
          "orphaned outstanding block => poll closes abort => manager answer ends the round; trigger during a round => another round. "
          "abort closed at most once, no panic reachable, never silent across the memory window. The former counterexamples (start-1 requested at tip = start; silent round beyond the memory window; double close) are regression examples/corpus after the repository repair. The model is tied to node_manager.go by differential runs against the real "
-         "NodeManager + headers.Repository + BlockManager with a scripted block source.",
+         "NodeManager + headers.Repository + BlockManager with a scripted block source; a sample of the node-side block-request stream of C16 (cancel, late / missing block, peer drop: the node must be free for the next request) runs under this check too.",
     note=COMMON_NOTE + "The block manager's internals (retry, downloader signalling) are C16; here it is an environment that answers complete/aborted or stays silent.",
 )
